@@ -110,6 +110,22 @@ def judge_placements(ctx, st, case, pat, rep, S, P, R, obs, atol, label=""):
             if sorted(appended) != sorted(new_idx):
                 ctx.fail("%sreplacement atoms %s were inserted, the replacement-only atoms are %s" % (label, appended, new_idx), witness=w)
         st.count("insertion_calls_checked_against_the_common_atoms")
+        # ... and one insertion call serves ONE match: the atoms it identifies with structure atoms and the place where it puts its
+        # new atoms must belong to the same match
+        if shared and new_idx:
+            ppos_, rpos_ = np.asarray(pat["positions"], float), np.asarray(rep["positions"], float).reshape(-1, 3)
+            for e in ext_obs:
+                vals = sorted(int(v) for v in e["index_map"].values())
+                k_map = [k for k in sel if sorted(int(found[k][sj]) for sj in shared.values()) == vals]
+                if len(k_map) != 1 or e.get("other_positions") is None:
+                    continue
+                p = np.asarray(e["other_positions"], float)[new_idx[0]]
+                d = {k: float(G.equal_mod_lattice(cell, (obs["quats"][k].apply(rpos_[new_idx[0]] - ppos_[0]) + np.asarray(obs["found_positions"][k], float)[0])[None, :], p[None, :])[0]) for k in sel}
+                k_pos = min(d, key=d.get)
+                ds = sorted(d.values())
+                if k_pos != k_map[0] and (len(ds) < 2 or ds[1] - ds[0] > 0.3):
+                    ctx.fail("%san insertion identifies its common atoms with those of match %s but places its new atoms at match %s" % (label, found[k_map[0]], found[k_pos]), witness=w)
+                st.count("insertion_calls_whose_place_and_identified_atoms_were_compared")
     b0 = bound(atol, pat["positions"], rep["positions"])
     ppos = np.asarray(pat["positions"], float)
     rpos = np.asarray(rep["positions"], float).reshape(-1, 3)
